@@ -6,7 +6,7 @@ HARNESS_TIMEOUT = {'quick': 900, 'thorough': 7200}
 
 # files whose failure means the executable model itself does not build
 MODEL_FILES = ['theories/Base.v', 'theories/Lines.v', 'theories/Lifecycle.v', 'theories/Regex.v', 'theories/Claims.v',
-               'theories/Obs.v', 'theories/CaseClaims.v', 'theories/RunC14.v', 'theories/RunHist.v', 'theories/RunCodec.v', 'theories/RunEv.v', 'theories/RunCose.v', 'theories/Evidence.v', 'theories/Gates.v', 'theories/Cose.v', 'theories/Cbor.v', 'theories/Utf8.v', 'theories/Tags.v', 'theories/Wire.v', 'theories/Codec.v', 'theories/Run.v', 'gen/GenTags.v', 'spec/SpecTags.v', 'spec/SpecTables.v', 'gen/GenConsts.v']
+               'theories/Obs.v', 'theories/CaseClaims.v', 'theories/RunC14.v', 'theories/RunHist.v', 'theories/RunCodec.v', 'theories/RunEv.v', 'theories/RunCose.v', 'theories/RunEmb.v', 'theories/Embedded.v', 'theories/Evidence.v', 'theories/Gates.v', 'theories/Cose.v', 'theories/Cbor.v', 'theories/Utf8.v', 'theories/Tags.v', 'theories/Wire.v', 'theories/Codec.v', 'theories/Run.v', 'gen/GenTags.v', 'spec/SpecTags.v', 'spec/SpecTables.v', 'gen/GenConsts.v']
 
 TRUSTED_BASE = [
     'Coq 8.16.1 kernel (coqc; vm_compute used in tie obligations; no native_compute)',
@@ -144,7 +144,46 @@ EV_CONE = WIRE_CONE + ['theories/EvidenceProofs.v']
 
 COSE_CONE = ['theories/CborProofs.v', 'theories/CoseProofs.v', 'ties/TieTags.v', 'ties/TieConsts.v']
 
+def _c05_oracle(inp, obs, extra):
+    core = obs.partition(' ## ')[0]
+    if core.startswith('panic') or ' panic' in core or '=P' in core or '/P' in core or 'PANIC' in core:
+        return 'a decoding entry point (or a follow-up operation on what it returned) panicked: ' + ' '.join(t for t in core.split(' ') if 'P' in t or 'panic' in t)[:200]
+    return None
+
+
+def _c06_oracle(inp, obs, extra):
+    import re
+    m = re.search(r'## alloc=(\d+) len=(\d+)(?: ms=(\d+))?', obs)
+    if not m:
+        return None
+    alloc, n, ms = int(m.group(1)), int(m.group(2)), int(m.group(3) or 0)
+    if alloc > (1 << 20) + 1024 * n:
+        return 'allocated %d bytes for an input of %d bytes (bound: 1 MiB + 1 KiB per byte)' % (alloc, n)
+    if ms > 5000:
+        return 'took %d ms (bound 5 s)' % ms
+    return _c05_oracle(inp, obs, extra)
+
+
+EMB_CONE = ['theories/CborProofs.v', 'theories/EmbeddedProofs.v']
+
 PROPS = {
+    'C05': dict(
+        cone=CLAIMS_CONE + ['theories/SetterProofs.v'] + EMB_CONE, level='proof', oracle=_c05_oracle, kernel=False, rlimit_as=8 << 30,
+        nontrivial=lambda i, o: True, classify=lambda i, o: 'len<%d' % (1 << (len(i.split(' ')[1]) // 2).bit_length()),
+        rule='every decoding entry point (DecodeEvidenceFromCOSE, DecodeAndValidate*, DecodeClaimsFromCBOR/JSON, P1Claims/P2Claims/SwComponents.UnmarshalCBOR/JSON on registry-made and zero structs, encoding.PopulateStructFromCBOR/JSON on five struct shapes) on the same bytes, and on whatever decodes: Validate, every getter, CBOR and JSON encoding (plain and validating), Verify with five keys, MarshalJSON, GetInstanceID/GetImplementationID, re-serialise; inputs: valid CBOR / JSON / COSE tokens of both profiles and struct-shaped maps with truncation at every (quick: ~120) offset, 22 substitutions of each of the first 24 bytes, random 1..3-byte edits, null / empty / duplicate / type-swapped members for every claim key and inside components (also wrapped in an envelope), hostile JSON (duplicate members, null members, wrong types), odd CBOR heads; observed per entry point: value / error / panic; distinct = distinct input',
+        assumptions=['third-party decoders (fxamacker/cbor, encoding/json, go-cose, eat) never panic: assumed, exercised by this sweep'],
+    ),
+    'C06': dict(
+        cone=EMB_CONE, level='proof', oracle=_c06_oracle, kernel=False, rlimit_as=8 << 30,
+        nontrivial=lambda i, o: True, classify=lambda i, o: i.split(' ')[0],
+        rule='headers declaring 2^8..2^32-1 map / array / byte-string / text lengths (4- and 8-byte heads) followed by 0..16 bytes, bare, self-described-tagged, as a claim value, as a component list and inside a COSE envelope; nesting to depth 20 000 (CBOR arrays / maps / tags, JSON arrays / objects); 60 KB numbers and strings in JSON; valid tokens padded to 64 KiB; maps with thousands of entries; through every decoding entry point (ALL) and the hand-rolled reader (FROM); measured in a single-goroutine process under RLIMIT_AS 8 GiB: TotalAlloc delta against 1 MiB + 1 KiB per input byte, wall time against 5 s',
+        assumptions=['allocation behaviour of fxamacker/cbor, encoding/json, go-cose behind their well-formedness pre-check: assumed, measured'],
+    ),
+    'C15': dict(
+        cone=EMB_CONE, level='proof', kernel_maxlen=3000,
+        nontrivial=lambda i, o: True, classify=lambda i, o: ' '.join(i.split(' ')[:2]) if not i.startswith('FMAP') else 'FMAP',
+        rule='entry counts 0..40, 250..260, 65530..65540, 70000 (thorough: step 97 in between) through the build-tagged hook (Add / ToCBOR / FromCBOR: header bytes, total length, round trip); seven struct shapes (flat with untagged and "-" fields, one and two levels of embedded struct, embedded interface holding a struct pointer or nil, duplicate key across levels, all-optional) x random values x random subsets of set fields through SerializeStructToCBOR (bytes compared with the model) and SerializeStructToJSON (stable output, populate round trip, same map as encoding/json and as the plain CBOR marshaller for the flat shape); PopulateStructFromCBOR on hand-assembled maps with missing / duplicate / unknown keys, wrong value types, indefinite length, tags, trailing bytes',
+    ),
     'C02': dict(
         cone=COSE_CONE, level='proof', kernel_maxlen=2500,
         nontrivial=lambda i, o: i.split(' ')[3] != i.split(' ')[4], classify=lambda i, o: o,
@@ -264,6 +303,8 @@ def compare(pid, spec, cases_p, model_p, result, tier):
                 if why:
                     result['violations'].append(dict(input=inp, impl=obs, want=why, kind='oracle'))
                     continue
+            obs_full = obs
+            obs = obs.partition(' ## ')[0]
             if want == '?' or gen == '?':
                 result['violations'].append(dict(input=inp, impl=obs, want='model could not parse this input (harness/model format drift)', kind='format'))
                 continue
